@@ -138,9 +138,13 @@ def step (s : St) (toks : List String) : St × String :=
     match (lookup [a] "a").bind acct?, lookupNat [id] "id", pairs? ps with
     | some a, some id, some ps => res s (swap s a id ps)
     | _, _, _ => (s, "bad-op")
+  | ["modrewards", cs] =>     -- x/multistaking records rewards for the basket module account
+    match coins? cs with
+    | some cs => ({ s with modRewards := cs }, "ok")
+    | none => (s, "bad-op")
   | ["withdraw-surplus", t, ids] =>
     match (lookup [t] "to").bind acct?, (lookup [ids] "ids").bind natList? with
-    | some t, some ids => res s (withdrawSurplus s t ids)
+    | some t, some ids => res s (withdrawSurplusAll s t ids)
     | _, _ => (s, "bad-op")
   | ["obs", id, accs] =>
     match lookupNat [id] "id", (lookup [accs] "acc").bind natList? with
